@@ -1697,18 +1697,18 @@ theorem runTasks_cons_noError (P : List Live) (ns : List String) (s : St) (t : T
   | none =>
     rw [he] at hne
     simp only [] at hne ⊢
-    by_cases hw : r.1.watcherFailed = true
-    · have hw' : (r.1.emit (.group t.name (t.action s.run.destroy) "Finished")).watcherFailed = true := hw
-      rw [if_pos hw'] at hne
-      exact absurd rfl (hne _ (by simp) "watcher")
-    · have hw' : ¬ (r.1.emit (.group t.name (t.action s.run.destroy) "Finished")).watcherFailed = true := hw
-      rw [if_neg hw'] at hne ⊢
-      by_cases hc : r.1.cancelled = true
-      · have hc' : (r.1.emit (.group t.name (t.action s.run.destroy) "Finished")).cancelled = true := hc
-        rw [if_pos hc'] at hne
-        exact absurd rfl (hne _ (by simp) "canceled")
-      · have hc' : ¬ (r.1.emit (.group t.name (t.action s.run.destroy) "Finished")).cancelled = true := hc
-        rw [if_neg hc'] at hne ⊢
+    by_cases hc : r.1.cancelled = true
+    · have hc' : (r.1.emit (.group t.name (t.action s.run.destroy) "Finished")).cancelled = true := hc
+      rw [if_pos hc'] at hne
+      exact absurd rfl (hne _ (by simp) "canceled")
+    · have hc' : ¬ (r.1.emit (.group t.name (t.action s.run.destroy) "Finished")).cancelled = true := hc
+      rw [if_neg hc'] at hne ⊢
+      by_cases hw : r.1.watcherFailed = true
+      · have hw' : (r.1.emit (.group t.name (t.action s.run.destroy) "Finished")).watcherFailed = true := hw
+        rw [if_pos hw'] at hne
+        exact absurd rfl (hne _ (by simp) "watcher")
+      · have hw' : ¬ (r.1.emit (.group t.name (t.action s.run.destroy) "Finished")).watcherFailed = true := hw
+        rw [if_neg hw'] at hne ⊢
         exact ⟨trivial, by simpa using hw, by simpa using hc, rfl⟩
 
 open CliUtils.Props.C13 in
@@ -2004,7 +2004,7 @@ theorem runTasks_cons_Q (P : List Live) (ns : List String) (s : St) (t : Task) (
       split
       · exact hQ _ _ hr'
       · rename_i hc
-        exact h he (by simpa [St.emit] using hw) (by simpa [St.emit] using hc)
+        exact h he (by simpa [St.emit] using hc) (by simpa [St.emit] using hw)
 
 theorem runTasks_cons_Q' (P : List Live) (ns : List String) (s : St) (t : Task) (ts : List Task) (act : String) (r : TaskRes)
     (hact : t.action s.run.destroy = act) (hr : runTask (s.emit (.group t.name act "Started")) t P ns = r)
